@@ -176,6 +176,10 @@ extern int mpt_text_set(MPT_STRUCT(text) *tx, const char *name, MPT_INTERFACE(co
 		return len < 0 ? len : 0;
 	}
 	if (!strcasecmp(name, "color")) {
+		if (!src) {
+			tx->color = def_text.color;
+			return 0;
+		}
 		return mpt_color_pset(&tx->color, src);
 	}
 	if (!strcasecmp(name, "size")) {
